@@ -6,7 +6,8 @@ import HeimdallModel.Gen.LoaderGuards
 Theorems about the model of heimdall's run-time readers (`Model/Loaders.lean`): key stores and trust stores (any
 list of PEM blocks, any truncation of it, any key sizes, any certificates and issuer relations), rule sets (any
 untyped value in any position the rule factory and the scopes hook look at, pipelines of any length, any mechanism
-catalogue), the background goroutines that apply them (any sequence of notifications) and the request goroutines.
+catalogue), the background goroutines that apply them (any sequence of notifications), the request goroutines, and the
+credentials file of the redis cache (whatever the YAML decoder finds in it, any history of reloads and re-connects).
 
 The model is parameterised by `Guards`: one flag per check in the code.  The theorems say for **every** flag
 combination whether the guarantee holds (`… ↔ …`), so they cover the code as it is (`Guards.head`, all checks) and
@@ -483,6 +484,137 @@ theorem c19_survives_iff_sound (g : Guards) :
     · rfl
   · intro hs env keyId s es ha hreq
     exact (c19_process_survives g hs env keyId s es ha hreq).1
+
+/-! ## the credentials file of the redis cache
+
+`internal/cache/redis/config.go`: `fileCredentials` is read when the configuration is decoded and again, on the
+watcher goroutine, whenever the file is written; the redis client asks for the credentials (`get`, through
+`AuthCredentialsFn`) on goroutines of its own whenever it connects or re-connects.  The recover layer read off the
+source (`Gen/LoaderGuards.lean`) has an entry for the goroutine that reloads (`w.notify`) and — that goroutine being
+one of the redis client library — none for the one that asks: there a panic ends the process.  A file is abstracted
+to what the YAML decoder finds in it (`CredDoc`): no document, not YAML, a null document (only `---` so far, `---`
+and comments, `null`, `~`), a scalar, a sequence, or a mapping with any keys and values in any order.  `byValue` is
+the one thing about `load` the guarantees depend on: the document is decoded into a `staticCredentials` value (the
+code) and not into a pointer the decoder would have to allocate. -/
+
+/-- **No content of the credentials file panics the reload.** Whatever the decoder finds — for either way of
+decoding — `load` returns (new credentials or an error), and so does `OnChanged`. -/
+theorem c19_redis_credentials_load_returns (byValue : Bool) (st : Option Creds) (d : CredDoc) :
+    (loadCreds byValue d).returns = true ∧ (reloadCreds byValue st d).1.returns = true :=
+  ⟨loadCreds_returns byValue d, reloadCreds_outcome_returns byValue st d⟩
+
+/-- **A rejected reload keeps the previous credentials.** What `c.creds` points to is replaced exactly after a
+successful load, by something the file alone determines; after an error it is what it was. The model meets the
+judgement the check applies to what it observes (`reloadAdmissible`) on every content. -/
+theorem c19_redis_credentials_rejected_reload_keeps (byValue : Bool) (st : Option Creds) (d : CredDoc) :
+    (∀ s, loadCreds byValue d = .ok s → reloadCreds byValue st d = (.ok (), s)) ∧
+      ((loadCreds byValue d).isOk = false → (reloadCreds byValue st d).2 = st) ∧
+      reloadAdmissible (some st) (reloadCreds byValue st d).1 (some (reloadCreds byValue st d).2) = true := by
+  have hr := loadCreds_returns byValue d
+  simp only [reloadCreds]
+  cases h : loadCreds byValue d <;> simp_all [Out.isOk, reloadAdmissible]
+
+/-- the classes of the task: a complete file, a file with the password only, an empty file, a null document, an
+unknown field, a value of the wrong type, a key written twice, something that is not YAML -/
+example : loadCreds true (.map [("username", .scalar "foo"), ("password", .scalar "bar")]) =
+    .ok (some ⟨"foo", "bar"⟩) := by decide
+example : loadCreds true (.map [("password", .scalar "bar")]) = .ok (some ⟨"", "bar"⟩) := by decide
+example : loadCreds true .none = .err .decodeError ∧ loadCreds true .malformed = .err .unparsable := by decide
+example : loadCreds true .null = .ok (some ⟨"", ""⟩) ∧ loadCreds false .null = .ok none := by decide
+example : loadCreds true (.map [("username", .scalar "a"), ("extra", .scalar "1")]) = .err .decodeError := by decide
+example : loadCreds true (.map [("username", .collection)]) = .err .decodeError := by decide
+example : loadCreds true (.map [("username", .scalar "a"), ("username", .scalar "b")]) = .err .decodeError := by
+  decide
+/-- what a reader finds while `---\nusername: foo\npassword: bar\n` is being written: nothing, a sequence (`-`), a
+scalar (`--`), a null document (`---`), a scalar (`---\nusern`), a user without name (`---\nusername:`), half a name,
+not YAML (`…\npassw`), a user without password, the complete file -/
+example : [CredDoc.none, .seq, .scalar, .null, .scalar, .map [("username", .null)], .map [("username", .scalar "fo")],
+      .malformed, .map [("username", .scalar "foo"), ("password", .null)],
+      .map [("username", .scalar "foo"), ("password", .scalar "bar")]].map
+        (fun d => (reloadCreds true (some ⟨"old", "pw"⟩) d).2) =
+    [some ⟨"old", "pw"⟩, some ⟨"old", "pw"⟩, some ⟨"old", "pw"⟩, some ⟨"", ""⟩, some ⟨"old", "pw"⟩, some ⟨"", ""⟩,
+      some ⟨"fo", ""⟩, some ⟨"old", "pw"⟩, some ⟨"foo", ""⟩, some ⟨"foo", "bar"⟩] := by decide
+
+/-- **The model accepts exactly what means credentials.** Decoding into a value with `KnownFields(true)`, entry by
+entry in file order with the keys seen so far, accepts a document if and only if it is a credentials file in the
+sense of the specification (`credsOf`: null, or a mapping with pairwise distinct keys among `username` / `password`
+and scalar or null values — any number of entries, any order), and stores exactly the credentials it means. -/
+theorem c19_redis_credentials_model_is_spec (d : CredDoc) : credsLoads true d = (credsOf d).map some :=
+  loadCreds_eq_credsOf d
+
+example : credsOf (.map [("password", .scalar "bar"), ("username", .null)]) = some ⟨"", "bar"⟩ := by decide
+example : credsOf (.map [("password", .scalar "a"), ("password", .scalar "b")]) = none := by decide
+
+/-- **After any history the redis client is handed the last accepted credentials.** Decoding into a value: for
+every history of file contents (complete, half-written, null, hostile, in any order and number) reloaded one after
+the other, `get` returns — it never panics — and what it returns are the credentials of the last content that was
+accepted (= that means credentials, `credsOf`), the initial ones if none was. By induction over the history. -/
+theorem c19_redis_credentials_get_after_history (init : Creds) (ds : List CredDoc) :
+    ∃ c, credsGet (credsAfter true (some init) ds) = .ok c ∧
+      some c = lastGood (credsLoads true) (some init) ds ∧
+      some c = lastGood (fun d => (credsOf d).map some) (some init) ds := by
+  have hs := credsAfter_value_some (some init) rfl ds
+  have hl := credsAfter_eq_lastGood true (some init) ds
+  have hspec : credsLoads true = fun d => (credsOf d).map some := funext loadCreds_eq_credsOf
+  cases h : credsAfter true (some init) ds with
+  | none => simp [h] at hs
+  | some c => exact ⟨c, rfl, by rw [← hl, h], by rw [← hspec, ← hl, h]⟩
+
+example : credsGet (credsAfter true (some ⟨"foo", "bar"⟩)
+    [.null, .none, .map [("username", .scalar "baz"), ("password", .scalar "zab")], .malformed, .scalar]) =
+      .ok ⟨"baz", "zab"⟩ := by decide
+
+/-- **… exactly when the document is decoded into a value.** Decoding into a pointer, one null document (a writer
+that has flushed just the leading `---`) followed by a (re-)connect of the redis client is a nil dereference. -/
+theorem c19_redis_credentials_never_panic_iff (byValue : Bool) :
+    (∀ (init : Creds) (ds : List CredDoc), (credsGet (credsAfter byValue (some init) ds)).returns = true) ↔
+      byValue = true := by
+  constructor
+  · intro h
+    cases byValue
+    · have := h ⟨"", ""⟩ [.null]
+      simp [credsAfter, reloadCreds, loadCreds, credsGet] at this
+    · rfl
+  · intro hb init ds
+    subst hb
+    obtain ⟨c, hc, _, _⟩ := c19_redis_credentials_get_after_history init ds
+    rw [hc]; rfl
+
+/-- **The process.** Decoding into a value, for every history of writes of the credentials file and (re-)connects of
+the redis client, whether or not the watcher goroutine recovers: the process is alive at the end and the client
+works with the credentials of the last accepted content. -/
+theorem c19_redis_credentials_process_survives (watcherRecovers : Bool) (init : Creds) (es : List CredsEvent) :
+    (credsSteps true watcherRecovers ⟨true, some init⟩ es).alive = true ∧
+      (credsSteps true watcherRecovers ⟨true, some init⟩ es).creds =
+        lastGood (credsLoads true) (some init) (credFilesOf es) := by
+  obtain ⟨h1, _, h3⟩ := credsSteps_value watcherRecovers es ⟨true, some init⟩ rfl rfl
+  exact ⟨h1, h3⟩
+
+/-- **… and the recover layer cannot stand in for it.** The goroutine that reloads is the watcher's (`w.notify`, below
+a `recover` according to the table read off the source), the one that asks for the credentials is the redis
+client's: decoding into a pointer, the history "null document, re-connect" ends the process although every
+goroutine of heimdall's own recovers; so survival of all histories is equivalent to decoding into a value. -/
+theorem c19_redis_credentials_survives_iff (byValue : Bool) :
+    (∀ (init : Creds) (es : List CredsEvent),
+      (credsSteps byValue (extractedLayer Gen.LoaderGuards.listenerGoroutines Gen.LoaderGuards.providerEventCalls
+        Gen.LoaderGuards.processorRecovers Gen.LoaderGuards.decisionChain Gen.LoaderGuards.proxyChain
+        Gen.LoaderGuards.grpcUnaryInterceptors).listener ⟨true, some init⟩ es).alive = true) ↔ byValue = true := by
+  constructor
+  · intro h
+    cases byValue
+    · have := h ⟨"", ""⟩ [.file .null, .connect]
+      simp [credsSteps, credsStep, reloadCreds, loadCreds, credsGet, survives] at this
+    · rfl
+  · intro hb init es
+    subst hb
+    exact (c19_redis_credentials_process_survives _ init es).1
+
+/-- the history of the seeded defect: good credentials, the file observed with only `---` in it, a re-connect, the
+rest of the file, another re-connect -/
+example : (credsSteps false true ⟨true, some ⟨"foo", "bar"⟩⟩ [.file .null, .connect]).alive = false := by decide
+example : credsSteps true true ⟨true, some ⟨"foo", "bar"⟩⟩
+    [.file .null, .connect, .file (.map [("username", .scalar "baz"), ("password", .scalar "zab")]), .connect] =
+      ⟨true, some ⟨"baz", "zab"⟩⟩ := by decide
 
 /-! ## the recover layer, read off the source on every run -/
 
